@@ -9,6 +9,8 @@ import (
 	"os"
 	"time"
 
+	"github.com/linuxboot/fiano/pkg/compression"
+	"github.com/linuxboot/fiano/pkg/guid"
 	"github.com/linuxboot/fiano/pkg/uefi"
 	. "verifharness/common"
 	"verifharness/nvargen"
@@ -312,6 +314,125 @@ func allByte(b []byte, x byte) bool {
 	return true
 }
 
+// ---- short / self-consistently wrapped codec payloads: a GUID-defined section with
+// processing-required set, each codec GUID, a payload shorter than (or just reaching) the codec's own
+// frame header, with the frame's size fields set to the values that make a naive length check pass
+// after wrap-around: ZLIB (256-byte frame, uint32 size at 20) gets uint32(len-256); LZMA / LZMAX86
+// (1 + 4 + 8 header) get a small dictionary and uncompressed sizes len-13, 2^64-1, 0, ...; BROTLI
+// (two uint64) gets len-16, 2^64-1, 0.  The codec table for the model is what the real decoder
+// answers (a decoder that panics here is recorded as "err": the P cases then show the panic).
+
+var brotliGUID = [16]byte{0x50, 0x20, 0x53, 0x3d, 0xda, 0x5c, 0xd0, 0x4f, 0x87, 0x9e, 0x0f, 0x7f, 0x63, 0x0d, 0x5a, 0xfb}
+
+func safeDecode(g [16]byte, payload []byte) (out string) {
+	defer func() {
+		if recover() != nil {
+			out = "err"
+		}
+	}()
+	gg, err := guid.Parse(guidString(g))
+	if err != nil {
+		return "err"
+	}
+	c := compression.CompressorFromGUID(gg)
+	if c == nil {
+		return "err"
+	}
+	plain, err := c.Decode(append([]byte{}, payload...))
+	if err != nil {
+		return "err"
+	}
+	return H(plain)
+}
+
+// mixed-endian text form of a GUID given as its 16 bytes on disk
+func guidString(g [16]byte) string {
+	return fmt.Sprintf("%02X%02X%02X%02X-%02X%02X-%02X%02X-%02X%02X-%02X%02X%02X%02X%02X%02X",
+		g[3], g[2], g[1], g[0], g[5], g[4], g[7], g[6], g[8], g[9], g[10], g[11], g[12], g[13], g[14], g[15])
+}
+
+func putLE(b []byte, off, w int, v uint64) {
+	for i := 0; i < w && off+i < len(b); i++ {
+		b[off+i] = byte(v >> (8 * uint(i)))
+	}
+}
+
+func shortPayloads(r *Rng, kind int, l int) [][]byte {
+	base := func() []byte {
+		b := r.Bytes(l)
+		switch r.Intn(3) {
+		case 0:
+			for i := range b {
+				b[i] = 0
+			}
+		case 1:
+			for i := range b {
+				b[i] = 0xFF
+			}
+		}
+		return b
+	}
+	var out [][]byte
+	switch kind {
+	case 3: // ZLIB
+		for _, v := range []uint64{uint64(uint32(l - 256)), uint64(l), 0, uint64(uint32(l - 24)), 0xFFFFFFFF} {
+			b := base()
+			putLE(b, 20, 4, v)
+			if l > 258 { // a plausible zlib stream start after the frame
+				b[256], b[257] = 0x78, 0x9C
+			}
+			out = append(out, b)
+		}
+	case 1, 2: // LZMA, LZMAX86: props, dictionary size, uncompressed size
+		for _, v := range []uint64{uint64(l - 13), ^uint64(0), 0, uint64(l), uint64(uint32(l - 13)), 1} {
+			b := base()
+			if l > 0 {
+				b[0] = 0x5D
+			}
+			putLE(b, 1, 4, uint64(r.Pick(0, 1, 4096, 0x10000)))
+			putLE(b, 5, 8, v)
+			out = append(out, b)
+		}
+	default: // BROTLI: decoded size, scratch size
+		for _, v := range []uint64{uint64(l - 16), ^uint64(0), 0, uint64(l)} {
+			b := base()
+			putLE(b, 0, 8, v)
+			putLE(b, 8, 8, v)
+			out = append(out, b)
+		}
+	}
+	return out
+}
+
+func genShortCodec(r *Rng, tier string, modelMax int, emit Emit) {
+	lens := []int{0, 1, 4, 12, 13, 14, 16, 17, 20, 23, 24, 25, 40, 100, 255, 256, 257, 300}
+	guids := map[int][16]byte{1: uefigen.LZMAGUID, 2: uefigen.LZMAX86GUID, 3: uefigen.ZLIBGUID, 4: brotliGUID}
+	for _, kind := range []int{3, 1, 2, 4} {
+		for _, l := range lens {
+			if tier != "thorough" && kind != 3 && l > 40 && l != 256 {
+				continue // quick: the long forms only for ZLIB, whose frame is 256 bytes
+			}
+			for _, payload := range shortPayloads(r, kind, l) {
+				sec := &uefigen.Sec{Type: 0x02, GUID: guids[kind], GDAttrs: 1, Body: payload}
+				if r.Chance(1, 4) {
+					sec.GDExtra = r.Bytes(r.Pick(4, 8))
+				}
+				f := &uefigen.File{GUID: uefigen.GenGUID(r), Type: byte(r.Pick(2, 7)), State: 0xF8,
+					Secs: []*uefigen.Sec{sec, {Type: 0x19, Body: []byte{1, 2, 3, 4}}}}
+				v := &uefigen.Vol{FSGUID: uefigen.FFS2, Attrs: 0x4FEFF, Revision: 2, BlockSize: 64, Files: []*uefigen.File{f}, FreeSpace: r.Pick(0, 8, 100)}
+				img, _ := uefigen.EmitRegion(&uefigen.Region{Elems: []uefigen.Elem{{Vol: v}}})
+				if len(img) == 0 || len(img) > modelMax {
+					continue
+				}
+				emit("T", "codec", "dec", N(uint64(kind)), H(payload), safeDecode(guids[kind], payload))
+				emit("P", "p_total", H(img), "-")
+				emit("P", "p_bounded", H(img))
+				emit("C", "saveclass", H(img))
+			}
+		}
+	}
+}
+
 func genOverlap(tier string, modelMax int, emit Emit) {
 	one := func(img []byte) {
 		emit("P", "p_total", H(img), "-")
@@ -408,6 +529,7 @@ func gen(r *Rng, tier string, emit Emit) {
 		}
 	}
 	genAudit(r.Fork(0xA0D17), tier, modelMax, emit)
+	genShortCodec(r.Fork(0x5C0DEC), tier, modelMax, emit)
 }
 
 func main() {
